@@ -503,5 +503,84 @@ def cases_from(grouped):
     return cases
 
 
+# ------------------------------------------------------------------ self-test of the trace spec
+
+def corrupted_cases():
+    """Hand-made observation sets with one flipped field each, and the verdict the trace spec must give.
+    (Guards the judge itself: a Trace_Determinism that accepted these would make the check vacuous.)"""
+    import copy
+
+    def o(proc, rep, items=None, digest="d0", err=""):
+        return {"proc": proc, "seed": proc[1:], "rep": rep, "err": err, "digest": digest, "items": items or [],
+                "size": len(items or [])}
+    lst = {"id": "L0", "input": "x", "artefact": "all_dot_brackets", "shape": "list",
+           "obs": [o("s0", 1, ["a", "b", "c"], "d1"), o("s0", 2, ["a", "b", "c"], "d1"),
+                   o("s1", 1, ["b", "a", "c"], "d2"), o("s1", 2, ["b", "a", "c"], "d2")]}
+    txt = {"id": "T0", "input": "x", "artefact": "cli_json", "shape": "text",
+           "obs": [o("s0", 1), o("s0", 2), o("s1", 1), o("s1", 2)]}
+    out = [(lst, ("deviation", "AllDotBracketsHashOrder")), (txt, ("ok",))]
+
+    def variant(base, cid, expect, fn):
+        c = copy.deepcopy(base)
+        c["id"] = cid
+        fn(c)
+        out.append((c, expect))
+
+    def members(c):
+        c["obs"][2]["items"] = c["obs"][3]["items"] = ["b", "a", "d"]
+
+    def shorter(c):
+        c["obs"][2]["items"] = c["obs"][3]["items"] = ["b", "a"]
+
+    def repeated(c):
+        c["obs"][2]["items"] = c["obs"][3]["items"] = ["b", "a", "a"]
+
+    def within(c):
+        c["obs"][3]["items"], c["obs"][3]["digest"] = ["a", "b", "c"], "d1"
+
+    def other_artefact(c):
+        c["artefact"] = "elements"
+
+    def error_in_one(c):
+        c["obs"][2]["err"] = c["obs"][3]["err"] = "KeyError"
+
+    def digest(c):
+        c["obs"][2]["digest"] = c["obs"][3]["digest"] = "dX"
+
+    def adb_as_text(c):
+        c["artefact"] = "cli_stdout_all"
+        digest(c)
+
+    def one_process(c):
+        c["obs"] = c["obs"][:2]
+
+    def same_error(c):
+        for x in c["obs"]:
+            x["err"], x["digest"] = "ValueError", ""
+    variant(lst, "L1", ("fail", "SameAcrossRuns", "members"), members)
+    variant(lst, "L2", ("fail", "SameAcrossRuns", "members"), shorter)
+    variant(lst, "L3", ("fail", "SameAcrossRuns", "members"), repeated)
+    variant(lst, "L4", ("fail", "SameWithinProcess"), within)
+    variant(lst, "L5", ("fail", "SameAcrossRuns", "order"), other_artefact)
+    variant(lst, "L6", ("fail", "SameAcrossRuns", "error"), error_in_one)
+    variant(txt, "T1", ("fail", "SameAcrossRuns", "bytes"), digest)
+    variant(txt, "T2", ("fail", "SameAcrossRuns", "bytes"), adb_as_text)
+    variant(txt, "T3", ("fail", "AtLeastTwoProcesses"), one_process)
+    variant(txt, "T4", ("ok",), same_error)
+    return out
+
+
+def selftest(scratch):
+    """Validate the corrupted cases; any unexpected verdict is a machinery failure."""
+    pairs = corrupted_cases()
+    res = lib.trace_validate("Trace_Determinism", "Trace_Determinism_C14.cfg", [c for c, _ in pairs], scratch, chunks=1)
+    got = {v[0]: tuple(v[1:]) for v in res["verdicts"]}
+    for c, expect in pairs:
+        g = got.get(c["id"], ("ok",))
+        if g[:len(expect)] != expect:
+            raise lib.MachineryError(f"trace-spec self-test: case {c['id']} judged {g}, expected {expect}")
+    return len(pairs)
+
+
 if __name__ == "__main__":
     child_main(sys.argv[1])
